@@ -23,15 +23,17 @@ import vlib
 from gen import cachegen as CG
 
 ID = "C20"
-PROPS = ["IsoVerif/Props/C20.lean", "IsoVerif/Props/C20Sites.lean"]
-TARGETS = ["IsoVerif.Props.C20", "IsoVerif.Props.C20Sites"]
+PROPS = ["IsoVerif/Props/C20.lean", "IsoVerif/Props/C20Sites.lean", "IsoVerif/Props/C20Stable.lean"]
+TARGETS = ["IsoVerif.Props.C20", "IsoVerif.Props.C20Sites", "IsoVerif.Props.C20Stable"]
 GEN_DEPS = ["CacheProtocol"]
 LEVEL = "proof"
 RULE = ("seeded random scenarios: 2-8 (thorough: 2-16) simultaneously starting runs with equal or different annotations, "
         "flags, --clean_start, index/bed/alignment clients; cache directory fresh, populated by earlier sequential runs "
-        "(optionally with an input touched afterwards) or holding a corrupted file; random interleavings (uniform slots, "
+        "(optionally with an input touched afterwards; optionally one of the running runs takes the output folder of a "
+        "finished run, mostly with a same-named other annotation / reference) or holding a corrupted file; random interleavings (uniform slots, "
         "bursts, round-robin) of their cache steps; a case is non-trivial when model == implementation on trace, outcomes, "
-        "observed contents and final bytes, no run crashed and at least one lookup hit and one store happened; distinct by scenario")
+        "observed contents, final bytes and the stable / not stable verdict of every artefact a run took, no run crashed and at "
+        "least one lookup hit and one store happened; distinct by scenario")
 TRUSTED = ["json.dump/json.load are an external: the theorems assume Codec.Lawful (self-delimiting text), checked on every "
            "content that arises in the correspondence runs",
            "POSIX: open('w') truncates at open, buffered text reaches the inode at close, os.replace is atomic",
@@ -91,11 +93,20 @@ def run_real(sc, schedule=None, proto="fixed"):
     try:
         home, cfgs, warm = CG.materialise(base, sc)
         clock = sc["clock0"]
+        wconvs = []
         if warm:
             w = CS.run_scenario(home, warm, [], clock)
             clock = w["clock"]
             if not all(o and o["ok"] for o in w["outcomes"]):
                 return {"warm_failed": w["outcomes"]}, None
+            # the productions of the finished runs, with the mtimes of their inputs at that time (ghost log of the model)
+            for cv in w["convs"]:
+                wd = _client_desc(warm[cv["pid"]], RM)
+                cl = [c for c in ([wd["db"]] if wd["db"] else []) + wd["stores"]
+                      if os.path.abspath(c["target"]) == cv["target"] and c["key"] == cv["key"]]
+                if cl:
+                    wconvs.append((cl[0], int(cv["src_mtime0"]), [int(os.path.getmtime(a)) for a in cl[0]["aux"]],
+                                   int(cv["tgt_mtime"])))
         for fn, m in sc.get("touch", []):
             p = os.path.join(base, fn)
             if os.path.exists(p):
@@ -141,9 +152,19 @@ def run_real(sc, schedule=None, proto="fixed"):
             for c in d["stores"]:
                 pj["stores"].append(dict(enc(c), file=c["file"], lookup=c["lookup"]))
             procs.append(pj)
+        history = []
+        for cl, sm, am, tm in reversed(wconvs):          # newest first
+            history.append({"file": cl.get("file", 0), "key": nid(cl["key"]), "src": nid(cl["src"]),
+                            "aux": [nid(a) for a in cl["aux"]], "target": nid(cl["target"]), "tag": cl["tag"],
+                            "srcM0": sm, "srcM": sm, "auxM": am, "tgtM": tm})
         real = CS.run_scenario(home, cfgs, sc["schedule"] if schedule is None else schedule, clock)
         real["init_files"] = init_files
         real["base"] = base
+        real["outs"] = [os.path.abspath(c["output"]) for c in cfgs]
+        # the version (mtime) every artefact a run took has at the END of all runs (None = the file is gone)
+        real["final_mtime"] = {}
+        for (_, _, path, _, _) in real["taken"]:
+            real["final_mtime"][path] = os.path.getmtime(path) if os.path.isfile(path) else None
         # ground truth of every artefact the runs went on to use: what the fake conversion wrote into it
         prov = {}
         for o in real["outcomes"]:
@@ -157,7 +178,7 @@ def run_real(sc, schedule=None, proto="fixed"):
         real["descs"] = descs
         real["input_mtimes"] = {s: os.path.getmtime(s) for s in names if os.path.isabs(s) and os.path.isfile(s)}
         req = {"names": names, "mtimes": mtimes, "clock": clock, "files": init_files, "procs": procs,
-               "sched": [p for (p, _, _) in real["trace"]]}
+               "sched": [p for (p, _, _) in real["trace"]], "history": history}
         return real, req
     finally:
         shutil.rmtree(base, ignore_errors=True)
@@ -189,6 +210,14 @@ def compare(ctx, sc, real, model):
     ifiles = [real["files"].get(i) for i in range(4)]
     if model["files"] != ifiles:
         diffs.append(("final files", [_strip(real, x) for x in model["files"]], [_strip(real, x) for x in ifiles]))
+    # C20Stable: which version (path @ mtime) every run took, and whether the file at that path is still that version at the end
+    for pid, o in enumerate(real["outcomes"]):
+        if not (o and o["ok"]) or pid >= len(model.get("stable", [])):
+            continue
+        ist = [[path, int(m), real["final_mtime"].get(path) == m] for (q, _, path, m, _) in real["taken"] if q == pid]
+        if model["stable"][pid] != ist:
+            diffs.append(("stability p%d" % pid, [[_strip(real, a), b, c] for a, b, c in model["stable"][pid]],
+                          [[_strip(real, a), b, c] for a, b, c in ist]))
     iobs = [[f, seen] for (_, f, seen) in real["loads"]]
     if model["obs"] != iobs:
         diffs.append(("observed contents", len(model["obs"]), len(iobs)))
@@ -214,23 +243,129 @@ def check_property(sc, real):
                 ok = False
             if not ok and str(f) not in sc.get("corrupt", {}):
                 fails.append(("config_left_corrupted", "config %d ends as %r" % (f, text[:80])))
-    # every artefact a run goes on to use was converted from the run's own input (path, current mtime, flag)
+    # every artefact a run goes on to use was converted from the run's own input (path, current mtime, flag) – judged on
+    # what is in the file at the END of all runs (the run re-opens the path for the rest of its life) – and is still the
+    # version (path @ mtime) the run took
     for pid, (o, d) in enumerate(zip(real["outcomes"], real["descs"])):
         if not o or not o["ok"]:
             continue
         clients = ([d["db"]] if d["db"] else []) + d["stores"]
-        for (kind, path), c in zip(o["results"], clients):
+        took = [t for t in real.get("taken", []) if t[0] == pid]
+        for ci, ((kind, path), c) in enumerate(zip(o["results"], clients)):
             pv = real["provenance"].get(path)
+            tk = took[ci] if ci < len(took) and took[ci][2] == os.path.abspath(path) else None
+            cls = shared_target_class(real, pid, c, tk)
+            facts = {"pid": pid, "client": ci, "kind": kind, "artefact": _strip(real, path), "hit": bool(tk and tk[4]),
+                     "overwritten_by": cls}
             if pv is None:
-                fails.append(("foreign_conversion", "run %d uses %s which is not a produced artefact" % (pid, path)))
+                fails.append(("foreign_conversion", {"text": "run %d uses %s which is not a produced artefact" % (pid, path),
+                                                     "facts": facts}))
                 continue
             want_tag = {"db": bool(c["tag"]), "index": str(c["tag"])}.get(kind)
             src_now = real["input_mtimes"].get(os.path.abspath(c["src"]))
-            if os.path.abspath(pv["converted_from"]) != os.path.abspath(c["src"]) or pv["src_mtime"] != src_now or \
-                    (want_tag is not None and pv["tag"] != want_tag) or pv["kind"] != kind:
-                fails.append(("foreign_conversion", "run %d (%s of %s, tag %s) uses %s converted from %s@%s tag %s"
-                              % (pid, kind, c["src"], want_tag, path, pv["converted_from"], pv["src_mtime"], pv["tag"])))
+            foreign_file = os.path.abspath(pv["converted_from"]) != os.path.abspath(c["src"]) or pv["src_mtime"] != src_now or \
+                (want_tag is not None and pv["tag"] != want_tag) or pv["kind"] != kind
+            # what the file itself does not say (the dict key: an alignment against another index has the same read file):
+            # the version now at the path was written by another run for another client identity
+            foreign_writer = bool(cls and cls["by"] != pid and cls["other_input"])
+            if foreign_file or foreign_writer:
+                text = "run %d (%s of %s, tag %s) uses %s converted from %s@%s tag %s" \
+                       % (pid, kind, c["src"], want_tag, path, pv["converted_from"], pv["src_mtime"], pv["tag"])
+                if facts["hit"] and cls and cls["concurrent"] and cls["other_input"] and cls["separate_folders"] and \
+                        cls["in_its_folder"]:
+                    # the class of the known finding `cached_artefact_overwritten_in_place`
+                    fails.append((KIND_SHARED, {"text": text + " – taken from the cache at mtime %s, then overwritten in place "
+                                                "by the concurrently running run %d, which uses that output folder for "
+                                                "another input (key %s)" % (tk[3], cls["by"], _strip(real, str(cls["key"]))),
+                                                "facts": facts}))
+                else:
+                    fails.append(("foreign_conversion", {"text": text, "facts": facts}))
+            elif tk is not None and real["final_mtime"].get(tk[2]) != tk[3]:
+                # the file was replaced after the run took it, by a conversion of the same input (same key, flag, source mtime)
+                if cls and cls["by"] == pid:
+                    note = "self_overwrite"             # a run writing its own artefact again is not interference
+                elif cls and cls["concurrent"] and cls["in_its_folder"]:
+                    note = "rebuilt_in_place_same_input"  # exposure of the same finding, the artefact still corresponds
+                else:
+                    note = None
+                if note is None:
+                    fails.append(("artefact_unstable", {"text": "run %d took %s at mtime %s; at the end the file has mtime %s "
+                                                        "although no running run uses that folder" %
+                                                        (pid, path, tk[3], real["final_mtime"].get(tk[2])), "facts": facts}))
+                else:
+                    real.setdefault("stability_notes", []).append(note)
     return fails
+
+
+KIND_SHARED = "foreign_conversion:shared_target_overwritten"
+
+
+def _norm_tag(t):
+    try:
+        return int(t) if t is not None else 0
+    except (TypeError, ValueError):
+        return 0
+
+
+def shared_target_class(real, pid, client, tk):
+    """who wrote the version that is at the artefact's path at the end, if it is not the version the run took:
+    {"by": pid of the writer, "concurrent": it is one of the simultaneously running runs (not the history),
+     "other_input": it converted another input (other key / flag / k-mer size) than this client's,
+     "separate_folders": writer and this run have different output folders (the property's premise),
+     "in_its_folder": the path lies in the writer's output folder}; None when the version is the one taken or the
+    writer is unknown.  Ground truth: the log of the harness's fake conversions (pid, target, mtime)."""
+    if tk is None:
+        return None
+    path, m_end = tk[2], real["final_mtime"].get(tk[2])
+    if m_end is None or m_end == tk[3]:
+        return None
+    for cv in real["convs"]:
+        if cv["target"] == path and cv["tgt_mtime"] == m_end:
+            q = cv["pid"]
+            return {"by": q, "concurrent": True, "key": cv["key"],
+                    "other_input": (cv["key"], _norm_tag(cv["tag"])) != (client["key"], _norm_tag(client["tag"])),
+                    "separate_folders": real["outs"][q] != real["outs"][pid],
+                    "in_its_folder": os.path.dirname(path) == real["outs"][q]}
+    return None
+
+
+def static_class(sc, facts):
+    """the class predicate of the known finding evaluated on the scenario alone: the artefact of a cache hit of run `pid`
+    lies in the output folder that another simultaneously running run (other folder than `pid`'s own) uses, and that run
+    has a client producing into exactly this path for another input"""
+    vlib.repo_on_path()
+    import src.read_mapper as RM
+    if not facts or not facts.get("hit"):
+        return False
+    cfgs, _ = CG.cfgs("/__S__", sc)
+    descs = [_client_desc(c, RM) for c in cfgs]
+    pid, ci = facts["pid"], facts["client"]
+    if not (0 <= pid < len(descs)):
+        return False
+    mine = (([descs[pid]["db"]] if descs[pid]["db"] else []) + descs[pid]["stores"])
+    if ci >= len(mine):
+        return False
+    mine = mine[ci]
+    for q, d in enumerate(descs):
+        if q == pid or sc["runs"][q]["out"] == sc["runs"][pid]["out"]:
+            continue
+        for c in ([d["db"]] if d["db"] else []) + d["stores"]:
+            if c["target"].replace("/__S__", "<S>") == facts["artefact"] and \
+                    (c["key"], c["tag"]) != (mine["key"], mine["tag"]):
+                return True
+    return False
+
+
+def matches_finding(failure, entry):
+    """membership of a failure in a listed finding: the kind AND the class predicate"""
+    if failure["kind"] != entry.get("kind"):
+        return False
+    if entry.get("id") == "cached_artefact_overwritten_in_place":
+        inp = failure["input"]
+        if inp.get("mode") == "pipeline":
+            return pipeline_class(inp.get("case", {}), inp.get("facts", {}))
+        return static_class(inp.get("scenario", {}), inp.get("facts", {}))
+    return True
 
 
 def codec_laws(ctx, real, req, model):
@@ -275,8 +410,13 @@ def correspondence(ctx):
     quick = ctx.tier == "quick"
     n_sc = 260 if quick else 2000
     max_n = 8 if quick else 16
-    scenarios = CG.witness_scenarios() + [CG.rand_scenario(ctx.rng, max_n=max_n, rich=True) for _ in range(n_sc)]
-    ctx.extra["scenario_generator"] = {"random": n_sc, "max_processes": max_n, "witness_schedules": 2}
+    scenarios = CG.witness_scenarios() + CG.stable_scenarios() + \
+        [CG.rand_scenario(ctx.rng, max_n=max_n, rich=True) for _ in range(n_sc)]
+    for sc in scenarios:
+        if "name" not in sc and CG.reuse_finished_folder(sc):
+            ctx.count("generator:running_run_takes_finished_folder")
+    ctx.extra["scenario_generator"] = {"random": n_sc, "max_processes": max_n, "witness_schedules": 2,
+                                       "shared_target_scenarios": len(CG.stable_scenarios())}
     batch = []
     for sc in scenarios:
         real, req = run_real(sc)
@@ -302,6 +442,19 @@ def correspondence(ctx):
             continue
         hits = sum(1 for p in model["procs"] for r in p["results"] if r[2])
         ctx.count("lookups_hit", hits)
+        # C20Stable: the verdicts agree (compare); the hypothesis of results_stable_partial evaluated by the model on the
+        # start state (history in the ghost log) predicts the real runs
+        unstable = sum(1 for (_, _, path, m, _) in real["taken"] if real["final_mtime"].get(path) != m)
+        ctx.count("results_taken", len(real["taken"]))
+        ctx.count("results_unstable_at_end", unstable)
+        ctx.count("private_targets:%s" % ("holds" if model.get("private") else "fails"))
+        if unstable:
+            ctx.count("scenarios_with_unstable_result")
+        if model.get("private") and unstable:
+            ctx.disagree("stable_partial_prediction", sc, "PrivateTargets holds => every result stable",
+                         [[_strip(real, p), m, real["final_mtime"].get(p)] for (_, _, p, m, _) in real["taken"]
+                          if real["final_mtime"].get(p) != m][:3])
+            continue
         crashed = sum(1 for p in model["procs"] if p["crashed"])
         if crashed:
             ctx.count("model_crash")
@@ -328,10 +481,20 @@ def oracle_inprocess(ctx, scenarios):
             ctx.fail("run_crashed", {"mode": "inprocess", "scenario": sc}, "sequential warm-up run failed: %s" % real["warm_failed"])
             continue
         seen = set()
-        for kind, detail in confirmed_failures(sc, real):
+        found = confirmed_failures(sc, real)
+        for note in real.get("stability_notes", []):
+            ctx.count("oracle:" + note)
+        for kind, detail in found:
             if kind not in seen:
                 seen.add(kind)
                 small = sc
+                if kind == KIND_SHARED and ctx.hist.get("oracle_failure:" + kind, 0) >= 8 and isinstance(detail, dict) and \
+                        static_class(sc, detail["facts"]):
+                    # the listed class, observed often with the generator option: recorded a few times, counted always
+                    # (a failure of this kind OUTSIDE the class predicate is always recorded)
+                    ctx.count("oracle_failure:" + kind)
+                    ctx.count("oracle_failure_counted_only:" + kind)
+                    continue
                 if kind not in ctx.extra.setdefault("shrunk_kinds", []):
                     ctx.extra["shrunk_kinds"].append(kind)
                     small = shrink(sc, kind)
@@ -340,8 +503,12 @@ def oracle_inprocess(ctx, scenarios):
                     detail = d2[0] if d2 else detail
                     if not d2:
                         small = sc
-                ctx.fail(kind, {"mode": "inprocess", "scenario": small}, detail)
-        if len(ctx.failures) > 12:
+                inp = {"mode": "inprocess", "scenario": small}
+                if isinstance(detail, dict):       # structured: the facts the class predicate of a finding is evaluated on
+                    inp["facts"], detail = detail["facts"], detail["text"]
+                ctx.fail(kind, inp, detail)
+                ctx.count("oracle_failure:" + kind)
+        if len([f for f in ctx.failures if f["kind"] != KIND_SHARED]) > 12:
             break
     return n
 
@@ -522,8 +689,16 @@ class PipelineEnv:
         self.PL = _pipeline()
         self.base = self.PL.scratch("isoverif_c20_pipe_")
         self.paths = self.PL.copy_toy(os.path.join(self.base, "data"))
-        self.ann = [self.paths["gtf"], os.path.join(self.base, "data", "second.gtf")]
+        self.ann = [self.paths["gtf"], os.path.join(self.base, "data", "second.gtf"),
+                    # the second annotation once more under the FILE NAME of the first one, in another folder: a run that
+                    # converts it into an output folder writes the same <name>.db path as a run of the first annotation
+                    os.path.join(self.base, "data", "alt", os.path.basename(self.paths["gtf"]))]
         _second_annotation(self.paths["gtf"], self.ann[1])
+        os.makedirs(os.path.dirname(self.ann[2]))
+        import gzip
+        with open(self.ann[1], "rb") as fi, gzip.open(self.ann[2], "wb") as fo:
+            fo.write(fi.read())
+        self.same_content = {2: 1}        # annotation 2 = annotation 1 under another path: same solo outputs
         self.solo = {}
         self.k = 0
         # every process of this oracle run executes one frozen copy of the tree (other work may commit to the
@@ -543,7 +718,8 @@ class PipelineEnv:
         return a + (["--complete_genedb"] if complete else [])
 
     def baseline(self, ann, complete):
-        key = (ann, complete)
+        key = (self.same_content.get(ann, ann), complete)
+        ann = key[0]
         if key not in self.solo:
             d = os.path.join(self.base, "solo_%d_%d" % (ann, int(complete)))
             os.makedirs(d)
@@ -577,11 +753,28 @@ def run_pipeline_case(case, keep=None, env=None):
         with open(os.path.join(sdir, "sched.json"), "w") as f:
             json.dump(case.get("sched") or [], f)
         procs = []
+        outs = case.get("outs") or ["run%d" % i for i in range(n)]
+        # history: earlier runs under the same HOME that have FINISHED before the simultaneous ones start
+        for h in case.get("history", []):
+            od = os.path.join(base, h["out"], "out")
+            os.makedirs(os.path.dirname(od), exist_ok=True)
+            rc, log = PL.run_isoquant(od, env.args_for(h["ann"], h["complete"]), home=home,
+                                      wrapper=os.path.join(env.repo, "isoquant.py"))
+            if rc != 0:
+                shutil.rmtree(base, ignore_errors=True)
+                return [("infrastructure", "history run failed rc=%s: %s" % (rc, log[-300:]))]
+        db_before = {}
+        for o in set(outs):
+            od = os.path.join(base, o, "out")
+            for fn in (os.listdir(od) if os.path.isdir(od) else []):
+                if fn.endswith(".db"):
+                    db_before[os.path.join(od, fn)] = os.path.getmtime(os.path.join(od, fn))
         for i in range(n):
-            od = os.path.join(base, "run%d" % i, "out")
-            os.makedirs(os.path.dirname(od))
+            od = os.path.join(base, outs[i], "out")
+            os.makedirs(os.path.dirname(od), exist_ok=True)
             e = dict(os.environ, HOME=home, PYTHONHASHSEED="0", ABLAB_ISOQUANT_VERIF="1", VERIF_REPO=env.repo,
-                     VERIF_C20_SCHED_DIR=sdir, VERIF_C20_PID=str(i), VERIF_C20_N=str(n))
+                     VERIF_C20_SCHED_DIR=sdir, VERIF_C20_PID=str(i), VERIF_C20_N=str(n),
+                     VERIF_C20_HOLD_USE="1" if case.get("hold_use") else "0")
             entry = [WRAPPER] if case.get("sched") is not None else [os.path.join(env.repo, "isoquant.py")]
             procs.append((od, subprocess.Popen([vlib.PY] + entry + ["--output", od] + env.args_for(case["anns"][i], case["complete"][i]),
                                                env=e, stdout=subprocess.PIPE, stderr=subprocess.STDOUT, text=True,
@@ -600,7 +793,24 @@ def run_pipeline_case(case, keep=None, env=None):
             want = env.baseline(case["anns"][i], case["complete"][i])
             if got != want:
                 bad = sorted(k for k in set(got) | set(want) if got.get(k) != want.get(k))
-                fails.append(("results_differ_from_solo", "process %d: files %s differ from the solo run" % (i, bad[:5])))
+                text = "process %d: files %s differ from the solo run" % (i, bad[:5])
+                # which database did the run use?  ("Gene annotation file found. Using <path>" = cache hit)
+                used = [l.split("Using ", 1)[1].strip() for l in log.split("\n") if "Gene annotation file found. Using " in l]
+                facts = None
+                if used:
+                    owner = [q for q in range(n) if q != i and os.path.dirname(used[0]) == os.path.join(base, outs[q], "out")]
+                    facts = {"pid": i, "hit": True, "artefact_out": os.path.basename(os.path.dirname(os.path.dirname(used[0]))),
+                             "db_mtime_taken": db_before.get(used[0]),
+                             "db_mtime_end": os.path.getmtime(used[0]) if os.path.exists(used[0]) else None,
+                             "folder_used_by_running": owner}
+                if facts and facts["db_mtime_taken"] is not None and facts["db_mtime_end"] != facts["db_mtime_taken"] and \
+                        pipeline_class(dict(case, outs=outs), facts):
+                    fails.append((KIND_SHARED, {"text": text + "; it took %s from the cache (db_mtime %s) and the concurrently running "
+                                                "process %s, which uses that output folder for another annotation, rewrote it "
+                                                "(db_mtime now %s)" % (used[0].replace(base, "<S>"), facts["db_mtime_taken"],
+                                                                       owner, facts["db_mtime_end"]), "facts": facts}))
+                else:
+                    fails.append(("results_differ_from_solo", text))
         cdir = os.path.join(home, ".config", "IsoQuant")
         for nme in (os.listdir(cdir) if os.path.isdir(cdir) else []):
             if nme.endswith(".json"):
@@ -622,6 +832,23 @@ def run_pipeline_case(case, keep=None, env=None):
             env.close()
 
 
+def pipeline_class(case, facts):
+    """the class predicate of the known finding on a pipeline case: the database the run took from the cache lies in the
+    output folder that another, simultaneously running process (separate output folder) uses for another annotation / flag"""
+    if not facts or not facts.get("hit"):
+        return False
+    n = len(case.get("anns", []))
+    outs = case.get("outs") or ["run%d" % i for i in range(n)]
+    pid = facts.get("pid", -1)
+    if not (0 <= pid < n):
+        return False
+    for q in range(n):
+        if q != pid and outs[q] != outs[pid] and outs[q] == facts.get("artefact_out") and \
+                (case["anns"][q], case["complete"][q]) != (case["anns"][pid], case["complete"][pid]):
+            return True
+    return False
+
+
 def pipeline_cases(ctx):
     quick = ctx.tier == "quick"
     rng = ctx.rng
@@ -631,6 +858,12 @@ def pipeline_cases(ctx):
         # the lost-tail witness: both runs reach the middle of their store (T0 T1), the longer dict is written first (W0),
         # the shorter second (W1)
         {"anns": [0, 1], "complete": [True, True], "sched": [0] * 16 + [1] * 8 + [0, 1], "name": "lost_tail_witness_schedule"},
+        # shared_target_overwrite_witness on the real isoquant.py (audit finding C20-G1, known finding
+        # cached_artefact_overwritten_in_place): A0 (-o X, annotation 0) has finished; B (-o Y, annotation 0) performs its
+        # lookup (cache hit on X/<name>.db) and is held before it goes on to use the database; A' (-o X again, a same-named
+        # OTHER annotation) runs its whole cache phase (the conversion rewrites X/<name>.db); then B goes on
+        {"anns": [0, 2], "complete": [True, True], "outs": ["Y", "X"], "history": [{"ann": 0, "complete": True, "out": "X"}],
+         "hold_use": True, "sched": [0] * 6 + [1] * 8 + [0], "name": "shared_target_overwrite"},
         # both runs reach their store in the fixed protocol, then alternate
         {"anns": [0, 1], "complete": [True, True], "sched": [0] * 11 + [1] * 7 + [0, 1, 1, 0], "name": "overlapping_stores"},
         # free-running simultaneous start, equal and different annotations
@@ -651,21 +884,24 @@ def oracle(ctx, disagreements, broken):
     seeds = [d["input"] for d in disagreements if d["op"] == "run" and isinstance(d["input"], dict) and "runs" in d["input"]]
     n = oracle_inprocess(ctx, seeds[:40])
     # 2. the witnesses of the pre-fix protocol on the current tree (must pass), then the normal generator
-    scs = CG.witness_scenarios()
+    scs = CG.witness_scenarios() + CG.stable_scenarios()
     extra = 300 if quick else 2400
     if broken:
         extra *= 2
     scs += [CG.rand_scenario(ctx.rng, max_n=8 if quick else 16, rich=True) for _ in range(extra)]
+    for sc in scs:
+        if "name" not in sc and CG.reuse_finished_folder(sc):
+            ctx.count("oracle_generator:running_run_takes_finished_folder")
     n += oracle_inprocess(ctx, scs)
     ctx.extra["oracle_inprocess_scenarios"] = n
-    if not any(f["kind"] != "infrastructure" for f in ctx.failures):
+    if not any(f["kind"] not in ("infrastructure", KIND_SHARED) for f in ctx.failures):
         witness_on_prefix_tree(ctx)
     # 3. real isoquant.py processes
     t0 = time.time()
     ran = 0
     env = PipelineEnv()
     for case in pipeline_cases(ctx):
-        if ctx.failures and ran >= 3:
+        if [f for f in ctx.failures if f["kind"] != KIND_SHARED] and ran >= 3:
             break
         keep = {}
         try:
@@ -681,7 +917,11 @@ def oracle(ctx, disagreements, broken):
                 continue
             if kind not in seen:
                 seen.add(kind)
-                ctx.fail(kind, {"mode": "pipeline", "case": case}, detail)
+                inp = {"mode": "pipeline", "case": case}
+                if isinstance(detail, dict):
+                    inp["facts"], detail = detail["facts"], detail["text"]
+                ctx.fail(kind, inp, detail)
+                ctx.count("oracle_failure:pipeline:" + kind)
         ctx.count("pipeline_case:" + case["name"])
     env.close()
     ctx.extra["oracle_pipeline"] = {"cases": ran, "wall_s": round(time.time() - t0, 1)}
